@@ -46,7 +46,10 @@ def specLegal (s : CStr) : Bool := !absolute s && !('#' ∈ s) && okComps (comps
 def specAnswer (v : Verdict) (path : CStr) : Option CStr :=
   match v with
   | .deny => none
+  | .raise => none            -- an error is no approval
   | .ok => some path
+  | .odd _ => some path       -- as coded: anything but the integer 0 approves
+  | .absent => some path      -- as coded: a master without the function approves everything
   | .rewrite s => some s
 
 def specCheck (v : Verdict) (path : CStr) : Option CStr :=
@@ -64,6 +67,9 @@ inductive Policy where
   | allow                   -- return 1
   | echo                    -- return the path argument itself (as a string)
   | fixed (s : CStr)        -- return this string whatever was asked
+  | raise                   -- valid_read/valid_write raise an error for every path
+  | raiseOn (s : CStr)      -- raise an error for exactly this path argument, return 1 otherwise
+  | odd (what : String)     -- return an array / float / object / negative int …
   deriving Repr, DecidableEq
 
 def Policy.verdict (p : Policy) (path : CStr) : Verdict :=
@@ -72,6 +78,9 @@ def Policy.verdict (p : Policy) (path : CStr) : Verdict :=
   | .allow => .ok
   | .echo => .rewrite path
   | .fixed s => .rewrite s
+  | .raise => .raise
+  | .raiseOn s => if path = s then .raise else .ok
+  | .odd w => .odd w
 
 /-! ### events -/
 
@@ -90,6 +99,9 @@ inductive Ev where
   | valid (w : Bool) (path : CStr) (who : String) (op : String) (v : Verdict)
   /-- a libc file function was called with this path (`w` = modifies / opens for writing) -/
   | fs (fn : String) (w : Bool) (path : CStr)
+  /-- the master object of this run does not define valid_read / valid_write at all (`true`): as coded the
+      driver then treats every path as approved and there is nothing to log -/
+  | mode (masterAbsent : Bool)
   /-- anything else (not judged) -/
   | note (s : String)
   deriving Repr, DecidableEq
@@ -156,6 +168,7 @@ structure JState where
   efun : String := ""
   who : String := ""
   approvals : List Approval := []
+  absent : Bool := false          -- the master has no valid_read / valid_write (see `Ev.mode`)
   bad : List Violation := []      -- newest first
   deriving Repr
 
@@ -219,10 +232,11 @@ def judgeStep (s : JState) (e : Ev) : JState :=
         (if fn == "stat" && s.efun ∈ compileCalls then s.flag "load-probe-dotdot" s!"{s.efun}: stat {showP p}"
          else s.flag "fs-dotdot" s!"{s.efun}: {fn} {showP p}")
       else s
-    if compileCalls.contains s.efun then s
+    if compileCalls.contains s.efun || s.absent then s      -- only confinement can be required
     else
       if s.approvals.any (okBy fn w p) then s
       else s.flag "fs-unmediated" s!"{s.efun}: {fn} {if w then "w" else "r"} {showP p} without a matching approval"
+  | .mode b => { s with absent := b }
   | .note _ => s
 
 def judgeEv (evs : List Ev) : List Violation :=
